@@ -160,10 +160,19 @@ func runKeepAlive(steps []kaStep, k, req int, unit time.Duration) string {
 			return ""
 		}
 	}
-	time.Sleep(300 * time.Millisecond)
+	// every PINGREQ is answered (give the answers up to 2 s on a loaded machine)
+	for w := 0; w < 200; w++ {
+		mu.Lock()
+		ok := pongs == wantPongs || !closedAt.IsZero()
+		mu.Unlock()
+		if ok {
+			break
+		}
+		time.Sleep(10 * time.Millisecond)
+	}
 	mu.Lock()
 	defer mu.Unlock()
-	if pongs != wantPongs {
+	if pongs != wantPongs && closedAt.IsZero() {
 		return fmt.Sprintf("%d PINGREQ sent, %d PINGRESP received", wantPongs, pongs)
 	}
 	if !closedAt.IsZero() {
